@@ -178,6 +178,25 @@ fn scenario(cfg: &Cfg) {
 
 /// Single thread: a long history of references (and interleaved failing monitors) stays distinct.
 fn sequential_refs(n: usize) {
+    // two node objects used from one thread: each has its own references, and what one node hands out
+    // does not depend on the other having been used before or in between
+    {
+        let a = Node::new("a@h", "cookie");
+        let mut seen_a: HashSet<Vec<u32>> = HashSet::new();
+        let mut seen_b: HashSet<Vec<u32>> = HashSet::new();
+        for _ in 0..10 {
+            assert!(seen_a.insert(a.make_reference().ids.clone()), "node a handed out a reference twice");
+        }
+        let b = Node::new("b@h", "cookie");
+        for i in 0..3000 {
+            let r = b.make_reference();
+            assert!(seen_b.insert(r.ids.clone()), "reference #{} {:?} of a second node on the same thread is identical to an earlier one of that node", i, r.ids);
+            if i % 3 == 0 {
+                let r = a.make_reference();
+                assert!(seen_a.insert(r.ids.clone()), "reference {:?} of the first node is identical to an earlier one of that node (a second node was used in between)", r.ids);
+            }
+        }
+    }
     let node = Node::new("n@h", "cookie");
     let mut seen: HashSet<Vec<u32>> = HashSet::with_capacity(n);
     let from = erltf::types::ExternalPid::new(Atom::new("n@h"), 1, 0, 1);
